@@ -444,6 +444,7 @@ func runC15(p *core.Prog, r *core.Report) {
 			r.Check(okFresh && always, "C15.R4", "SkipFromKeys/own-keys", "the on-the-fly decision of a block is taken on that block's own keys: a key list allocated in the call and decoded from the bytes given for the block on every path (an index module that emits nothing for a block yields an empty list, not the previous block's)", fmt.Sprintf("fresh key list=%v, decoded on every path=%v", okFresh, always), p.Pos(c.Pos()))
 		}
 	})
+	r.Guard("C15.R6", "index-file", "index file round trip", func() { checkIndexFileCodec(p, r, "C15.R6") })
 	r.Guard("C15.R6", "index-per-module", "one index per index module", func() {
 		fn := p.Func(pkgCache, "Engine.EndOfStream")
 		var writes []*ssa.Call
